@@ -96,7 +96,7 @@ type Op struct {
 	Sweep    bool
 	Col      ivg.Color // SetCReg
 	F        [6]float32
-	VB       ivg.ViewBox      // Reset
+	VB       ivg.ViewBox     // Reset
 	Pal      *[64]color.RGBA // Reset
 }
 
